@@ -82,6 +82,7 @@ Definition pstep (s : list byte) (o base : nat) (st : rst) : sres :=
     if all_zero (skipn H s) then SStop None else SStop (Some (Corrupt W_PADDING (base + o1)))
   else if N.eqb ty T_SETCOMP then
     if rem1 <? len then SStop (Some (Corrupt W_COMPTRUNC (base + o1)))
+    else if negb (list_eqb (crc ty (firstn len (skipn H s))) c) then SStop (Some (Corrupt W_CHECKSUM (base + o1)))
     else if Nat.eqb len 0 then SCont o1 st
     else
       let cb := nth H s 0%N in
